@@ -701,7 +701,20 @@ def _ite_struct(ce, a, b):
         if isinstance(a, (SSeq, tuple)) and isinstance(b, (SSeq, tuple)):
             sa, sb = to_sseq(a), to_sseq(b)
             c = mk_bool(ce)
-            return SSeq(ite(c, seq_len(sa), seq_len(sb)), lambda j: ite(c, sa.get(j), sb.get(j)), sa.shape or sb.shape, None, "ite")
+            def pointwise(j):
+                # an index beyond the (concrete) length of one alternative can only be an element of the other one
+                la, lb = seq_len(sa), seq_len(sb)
+                if isinstance(j, int) and isinstance(la, int) and not 0 <= j < la:
+                    return sb.get(j)
+                if isinstance(j, int) and isinstance(lb, int) and not 0 <= j < lb:
+                    return sa.get(j)
+                return ite(c, sa.get(j), sb.get(j))
+
+            r = SSeq(ite(c, seq_len(sa), seq_len(sb)), pointwise, sa.shape or sb.shape, None, "ite")
+            # model fields both alternatives carry (component prefix sums): the conditional of the two
+            for comp in set(sa.cpsum) & set(sb.cpsum):
+                r.cpsum[comp] = lambda k, fa=sa.cpsum[comp], fb=sb.cpsum[comp]: ite(c, fa(k), fb(k))
+            return r
         return _NOITE
     if isinstance(a, (SAtom,)) or isinstance(b, (SAtom,)):
         def code(x):
